@@ -112,6 +112,8 @@ def cases(tier, seed):
     for sh in ("cylinder", "spheroid"):
         out.append({"id": "volume-anchor:%s" % sh, "kind": "volume",
                     "shape": sh})
+    # a refusal must be able to leave a worker process
+    out.append({"id": "refusal-crosses-processes", "kind": "pickle"})
     # lengths written as integers (nanometres) and angles as small integers
     out.append({"id": "integer-typed-arguments", "kind": "inttypes"})
     # orientation anchor: in the same limit the amplitude is the form factor
@@ -592,6 +594,49 @@ def _run_orient(case, ck):
     return digest(fp_values(S))
 
 
+def _run_pickle(case, ck):
+    """the exceptions the theories refuse with survive pickling (a refusal
+    raised in a multiprocessing worker that cannot be unpickled makes the
+    pool wait for ever)"""
+    import pickle
+    import warnings
+    from holopy.core.metadata import detector_grid
+    from holopy.scattering import (calc_holo, Spheroid, Sphere, Tmatrix,
+                                   Multisphere)
+    from holopy.scattering.scatterer import Ellipsoid
+    det = detector_grid((2, 2), 0.1)
+    seen = []
+    for what, scat, theory in (
+            ("size beyond the compiled arrays",
+             Spheroid(n=1.59, r=(3e3, 6e3), center=(0, 0, 1e4)), Tmatrix()),
+            ("scatterer the theory cannot handle",
+             Ellipsoid(n=1.5, r=(0.3, 0.4, 0.5), center=(0, 0, 5)),
+             Tmatrix()),
+            ("layered sphere in Multisphere",
+             Sphere(n=[1.5, 1.6], r=[0.3, 0.5], center=(0, 0, 5)),
+             Multisphere())):
+        try:
+            with warnings.catch_warnings():
+                warnings.simplefilter("ignore")
+                calc_holo(det, scat, 1.33, 0.66, (1, 0), theory=theory)
+            ck.trans += 1
+            seen.append("computed")
+            continue
+        except Exception as e:
+            ck.trans += 1
+            try:
+                back = pickle.loads(pickle.dumps(e))
+                ok = type(back) is type(e) and str(back) == str(e)
+                why = "" if ok else "came back as %r" % (back,)
+            except Exception as e2:
+                ok, why = False, "%s: %s" % (type(e2).__name__, e2)
+            ck.true("refusal-picklable", ok, "%s (%s): the %s it raises does "
+                    "not survive pickling: %s" %
+                    (what, type(theory).__name__, type(e).__name__, why))
+            seen.append(type(e).__name__)
+    return digest(seen)
+
+
 def _run_inttypes(case, ck):
     import warnings
     from holopy.core.metadata import detector_grid
@@ -692,5 +737,6 @@ def run_case(case):
           "spherespecial": _run_spherespecial,
           "baddims": _run_baddims,
           "volume": _run_volume, "inttypes": _run_inttypes,
+          "pickle": _run_pickle,
           "orient": _run_orient}[case["kind"]](case, ck)
     return ck.result(fp=fp)
